@@ -51,7 +51,8 @@ def gen_case(rng, tier):
     rep = rng.choice(["plain", "plain", "chunked", "arrow"]) if (nkeys == 1 and kinds[0] != "cat" and n >= 4) else "plain"
     container = rng.choice(["numpy", "pandas", "pandas", "polars"])
     index = [rng.randint(0, 9) for _ in range(n)] if container == "pandas" else None
-    return dict(keycols=keycols, kinds=kinds, vals=vals, op=op, mask=mask, mk=mk, rep=rep, container=container, index=index,
+    warm_ = rng.choice([None, None, None] + api.WARM_OPS)
+    return dict(warm=warm_, keycols=keycols, kinds=kinds, vals=vals, op=op, mask=mask, mk=mk, rep=rep, container=container, index=index,
                 key_chunks=[n // 2, n - n // 2], ddof=rng.choice([0, 1]))
 
 
@@ -120,7 +121,9 @@ def run_case(GroupBy, c):
     try:
         with api.strategy(chunk_threshold=4 if c["rep"] == "chunked" else None):
             red = call(build(GroupBy, c), op, v, mask, False, c["ddof"])
-            tr = call(build(GroupBy, c), op, v, mask, True, c["ddof"])
+            gbt = build(GroupBy, c)
+            api.warm(gbt, c.get("warm"), len(c["keycols"][0]))          # the grouping may have been used before
+            tr = call(gbt, op, v, mask, True, c["ddof"])
     except Exception as e:  # noqa: BLE001
         if op == "size" and ncols > 1:
             return []
